@@ -112,6 +112,22 @@ func topoOrder(fn *ssa.Function, back map[[2]int]bool) []*ssa.BasicBlock {
 
 // written components / locals inside a loop body (syntactic)
 func (ex *Exec) loopWrites(li *loopInfo) (comps map[string]bool, locals map[string]bool, all bool) {
+	comps, locals, all, _ = ex.blockWrites(li.body, false)
+	return
+}
+
+func (ex *Exec) closureOf(v ssa.Value) (*ssa.MakeClosure, bool) {
+	if mc, ok := ex.closures[v]; ok {
+		return mc, true
+	}
+	mc, ok := v.(*ssa.MakeClosure)
+	return mc, ok
+}
+
+// blockWrites: components possibly written by the given blocks (syntactic). With skipFresh, stores whose
+// address provably derives from an allocation made in this function are ignored (they cannot be observed
+// by a caller through pre-existing memory). unknown lists the callees that made `all` true.
+func (ex *Exec) blockWrites(blocks map[*ssa.BasicBlock]bool, skipFresh bool) (comps map[string]bool, locals map[string]bool, all bool, unknown []string) {
 	comps, locals = map[string]bool{}, map[string]bool{}
 	g := ex.g
 	var addrComps func(v ssa.Value)
@@ -168,16 +184,25 @@ func (ex *Exec) loopWrites(li *loopInfo) (comps map[string]bool, locals map[stri
 			ex.typeComps(pt.Elem(), comps)
 		}
 	}
-	for b := range li.body {
+	for b := range blocks {
 		for _, in := range b.Instrs {
 			switch x := in.(type) {
 			case *ssa.Store:
+				if skipFresh && freshRoot(x.Addr, 0) {
+					continue
+				}
 				addrComps(x.Addr)
 			case *ssa.MapUpdate:
+				if skipFresh && freshRoot(x.Map, 0) {
+					continue
+				}
 				mt := x.Map.Type().Underlying().(*types.Map)
 				h, v, l := g.mapComps(mt)
 				comps[h], comps[v], comps[l] = true, true, true
 			case *ssa.Alloc, *ssa.MakeMap, *ssa.MakeSlice, *ssa.MakeClosure, *ssa.MakeChan:
+				if skipFresh {
+					continue
+				}
 				comps[g.allocComp()] = true
 				if a, ok := x.(*ssa.Alloc); ok {
 					if ex.localOK[a] {
@@ -201,13 +226,19 @@ func (ex *Exec) loopWrites(li *loopInfo) (comps map[string]bool, locals map[stri
 				}
 			case *ssa.Go:
 				all = true
+				unknown = append(unknown, "go statement")
 			case ssa.CallInstruction:
 				c := x.Common()
 				if b, ok := c.Value.(*ssa.Builtin); ok && !c.IsInvoke() {
+					if skipFresh && len(c.Args) > 0 && freshRoot(c.Args[0], 0) {
+						continue
+					}
 					switch b.Name() {
 					case "append":
 						comps[g.arrComp(c.Args[0].Type().Underlying().(*types.Slice).Elem())] = true
-						comps[g.allocComp()] = true
+						if !skipFresh {
+							comps[g.allocComp()] = true
+						}
 					case "copy":
 						comps[g.arrComp(c.Args[0].Type().Underlying().(*types.Slice).Elem())] = true
 					case "delete":
@@ -218,11 +249,44 @@ func (ex *Exec) loopWrites(li *loopInfo) (comps map[string]bool, locals map[stri
 				}
 				key, _ := ex.calleeKey(c)
 				con := ex.P.Contracts[key]
+				if con != nil && ex.c != nil && len(ex.c.OnlyContracts) > 0 && !con.Pure {
+					keep := false
+					for _, n := range ex.c.OnlyContracts {
+						if n == calleeShortName(c) || strings.HasSuffix(key, "."+n) {
+							keep = true
+						}
+					}
+					if !keep {
+						con = nil
+					}
+				}
 				switch {
+				case key != "" && inertWritesArgs(key):
+					for _, a := range c.Args {
+						if sl, ok := a.Type().Underlying().(*types.Slice); ok && !(skipFresh && freshRoot(a, 0)) {
+							comps[g.arrComp(sl.Elem())] = true
+						}
+					}
 				case key == "sync.Once.Do" && ex.onceDoReadOnly(c):
+				case key == "sort.Slice" && len(c.Args) == 2 && func() bool {
+					mi, ok := c.Args[0].(*ssa.MakeInterface)
+					if !ok {
+						return false
+					}
+					sl, ok := mi.X.Type().Underlying().(*types.Slice)
+					if !ok {
+						return false
+					}
+					if _, isC := ex.closureOf(c.Args[1]); !isC {
+						return false
+					}
+					comps[g.arrComp(sl.Elem())] = true
+					return true
+				}():
 				case con != nil && con.Pure:
 				case con != nil && con.ModAll:
 					all = true
+					unknown = append(unknown, shortKey(key)+" (modifies *)")
 				case con != nil:
 					// modifies entries: component-level over-approximation
 					if ws, ok := ex.modComps(con); ok {
@@ -231,8 +295,11 @@ func (ex *Exec) loopWrites(li *loopInfo) (comps map[string]bool, locals map[stri
 						}
 					} else {
 						all = true
+						unknown = append(unknown, shortKey(key)+" (modifies not analysable)")
 					}
-					comps[g.allocComp()] = true
+					if !skipFresh {
+						comps[g.allocComp()] = true
+					}
 				case key != "" && (isInert(key) || func() bool { _, f := ex.calleeKey(c); return f != nil && ex.P.readOnly(f) }()):
 					for _, a := range c.Args {
 						if _, isAddr := a.(*ssa.FieldAddr); isAddr {
@@ -244,9 +311,15 @@ func (ex *Exec) loopWrites(li *loopInfo) (comps map[string]bool, locals map[stri
 					}
 				default:
 					all = true
+					if key == "" {
+						unknown = append(unknown, "dynamic call")
+					} else {
+						unknown = append(unknown, shortKey(key))
+					}
 				}
-				if _, isDefer := x.(*ssa.Defer); isDefer {
+				if _, isDefer := x.(*ssa.Defer); isDefer && !isIgnorableDefer(calleeShortName(c)) {
 					all = true
+					unknown = append(unknown, "defer "+calleeShortName(c))
 				}
 			}
 		}
@@ -476,10 +549,14 @@ func resultNames(sig *types.Signature) []string {
 
 // contractEnvTypes: environment with typed dummy terms (for syntactic analyses).
 func (ex *Exec) contractEnvTypes(con *Contract, fn *ssa.Function) (*Env, error) {
-	if fn == nil {
-		return nil, fmt.Errorf("no function for %s", con.Key)
-	}
 	env := &Env{g: ex.g, ex: ex, vars: map[string]Val{}, st: ex.g.entryState(), pkgPath: con.Pkg}
+	if fn == nil {
+		// interface method / external function: only entries that do not mention parameters can be analysed
+		if env.pkgPath == "" {
+			env.pkgPath = ex.g.pkgPath
+		}
+		return env, nil
+	}
 	if env.pkgPath == "" && fn.Pkg != nil {
 		env.pkgPath = fn.Pkg.Pkg.Path()
 	}
